@@ -259,7 +259,7 @@ func replayModel(ctx *Context, r *OblResult, outDir string) (confirmed bool, log
 	base := []string{r.ob.Reach, not(r.ob.Goal)}
 	extra := append(append([]string{}, base...), small...)
 	to := 20 * time.Second
-	if _, ok := getValues(e.decls, e.facts[:r.ob.NFacts], extra, nil, to); !ok {
+	if _, ok := getValues(e.decls, r.hyps(), extra, nil, to); !ok {
 		extra = base
 	}
 	var lits []string
@@ -278,7 +278,7 @@ func replayModel(ctx *Context, r *OblResult, outDir string) (confirmed bool, log
 		for t, v := range rd.vals {
 			pins = append(pins, "(= "+t+" "+v+")")
 		}
-		vals, ok := getValues(e.decls, e.facts[:r.ob.NFacts], append(append([]string{}, extra...), pins...), rd.want, to)
+		vals, ok := getValues(e.decls, r.hyps(), append(append([]string{}, extra...), pins...), rd.want, to)
 		if !ok {
 			return false, "model evaluation failed"
 		}
